@@ -60,6 +60,9 @@ struct Reg
 	std::set<std::pair<int, model::Ep>> universe;          // endpoints ever bound, for probing
 	std::set<std::pair<int, model::Ep>> tainted;           // see Obj::earlier_eps
 	uint64_t steps = 0;
+	// callers commonly reuse one error_code for a series of attempts ("6881 is taken, try port 0"): every bind of a
+	// run goes through this one, which the harness never clears
+	error_code bind_ec;
 
 	Reg(Plan const& p, Ctx& c) : plan(p), ctx(c) {}
 	void fail(char const* cls, std::string const& m) { ctx.fail(cls, m); }
@@ -218,7 +221,8 @@ struct Reg
 		// endpoints in limbo (see Obj::earlier_eps) are left alone
 		if (!r.wildcard && tainted.count({r.proto, model::Ep{addr, r.port}})) return;
 		if (again && !v.must_succeed) return;
-		error_code ec;
+		error_code& ec = bind_ec;
+		if (ec) ctx.hit("bind_with_stale_error_code");
 		if (o.kind == 2) o.u->bind(udp::endpoint(a, uint16_t(r.port)), ec);
 		else if (o.kind == 1) o.a->bind(tcp::endpoint(a, uint16_t(r.port)), ec);
 		else o.t->bind(tcp::endpoint(a, uint16_t(r.port)), ec);
@@ -360,6 +364,22 @@ struct Reg
 		accept_into[i].reset(new tcp::socket(*ioc[size_t(o.node)]));
 		o.accept_pending = true;
 		int const g = o.gen;
+		if ((accepted.size() + size_t(i)) % 3 == 2)
+		{
+			// the overload that hands the accepted socket over by move
+			o.a->async_accept([this, i, g](error_code const& ec, tcp::socket sk) {
+				++ctx.handlers;
+				if (objs[i].gen != g) return;
+				objs[i].accept_pending = false;
+				ctx.tr.rec("accepted_move", {i, ec.value()}, {now_ns()});
+				if (ec) return;
+				accepted.emplace_back(new tcp::socket(std::move(sk)));
+				accepted_from.push_back(i);
+				ctx.hit("accepted");
+				ctx.hit("accepted_by_move");
+			});
+			return;
+		}
 		o.a->async_accept(*accept_into[i], [this, i, g](error_code const& ec) {
 			++ctx.handlers;
 			if (objs[i].gen != g) return;
@@ -422,6 +442,13 @@ struct Reg
 		if (!accepted[idx]) return;
 		int const from = accepted_from[idx];
 		error_code ec;
+		if ((k & 6) == 2 && accepted[idx]->is_open())
+		{
+			// move the accepted socket into a new object first (no operation is outstanding on it)
+			std::unique_ptr<tcp::socket> n(new tcp::socket(std::move(*accepted[idx])));
+			accepted[idx] = std::move(n);
+			ctx.hit("move_accepted");
+		}
 		if (k & 1) accepted[idx]->close(ec); else accepted[idx].reset();
 		ctx.hit("close_accepted");
 		ctx.tr.rec("close_accepted", {int64_t(idx)}, {});
